@@ -62,9 +62,9 @@ pub fn base_module(base: &J) -> Vec<u8> {
     let mut w = String::from("(module\n");
     match base["types"].as_str().unwrap_or("plain") {
         "rec" => {
-            w += "  (type $t0 (func))\n  (rec (type $a (struct (field i32))) (type $b (array (mut i64))))\n  (type (func (param i32)))\n  (type (func))\n  (type (array (mut i64)))\n";
+            w += "  (type $t0 (func))\n  (rec (type $a (struct (field i32))) (type $b (array (mut i64))))\n  (type (func (param i32)))\n  (type (func))\n  (type (array (mut i64)))\n  (type $open (sub (struct)))\n";
         }
-        _ => w += "  (type $t0 (func))\n  (type (func (param i32)))\n",
+        _ => w += "  (type $t0 (func))\n  (type (func (param i32)))\n  (type $open (sub (struct)))\n",
     }
     w += "  (import \"env\" \"imp\" (func $imp (type $t0)))\n";
     w += "  (func $f1 (param i32) (local i64 i64) i32.const 111 drop)\n";
@@ -76,10 +76,36 @@ pub fn base_module(base: &J) -> Vec<u8> {
     };
     w += &format!("  (func $f2 {} i32.const 222 drop call $imp)\n", locals);
     w += "  (memory 1)\n  (global $g0 (mut i32) (i32.const 5))\n  (export \"f1\" (func $f1)) (export \"g0\" (global $g0)) (export \"mem0\" (memory 0))\n  (data (i32.const 0) \"base\")\n)\n";
-    let mut bytes = wat::parse_str(&w).expect("content base");
+    let plain = wat::parse_str(&w).expect("content base");
+    let ncust = base["customs"].as_u64().unwrap_or(0);
+    let cpos = base["cpos"].as_str().unwrap_or("end");
+    // re-assemble the binary section by section so that the custom sections can sit anywhere:
+    // "end" (after everything), "front" (before the type section), "spread" (one after each of the first sections)
     use wasm_encoder::Section;
-    for k in 0..base["customs"].as_u64().unwrap_or(0) {
-        wasm_encoder::CustomSection { name: format!("c{}", k % 2).into(), data: (&[k as u8, 7][..]).into() }.append_to(&mut bytes);
+    let mut bytes = plain[..8].to_vec();
+    let custom = |k: u64, out: &mut Vec<u8>| {
+        wasm_encoder::CustomSection { name: format!("c{}", k % 2).into(), data: (&[k as u8, 7][..]).into() }.append_to(out);
+    };
+    let mut placed = 0u64;
+    if cpos == "front" {
+        while placed < ncust {
+            custom(placed, &mut bytes);
+            placed += 1;
+        }
+    }
+    for p in wasmparser::Parser::new(0).parse_all(&plain) {
+        let p = p.expect("content base parses");
+        if let Some((id, range)) = p.as_section() {
+            wasm_encoder::RawSection { id, data: &plain[range] }.append_to(&mut bytes);
+            if cpos == "spread" && placed < ncust {
+                custom(placed, &mut bytes);
+                placed += 1;
+            }
+        }
+    }
+    while placed < ncust {
+        custom(placed, &mut bytes);
+        placed += 1;
     }
     bytes
 }
